@@ -317,8 +317,19 @@ func c11Harness(malformed bool) mc.Harness {
 			idx := nExif
 			p0 := pos()
 			for j, c := range cmts {
-				if c != nil && p0 >= c.Start && p0 <= c.End {
+				// at entry the stream stands behind the box header: the payload range decides (an empty box
+				// ends where the next one starts)
+				if c != nil && p0 >= c.PayloadStart && p0 <= c.End {
 					b, idx = c, j
+				}
+			}
+			for j, c := range cmts {
+				// ... unless the stream stands exactly behind the 8-byte TIFF header of a box: then it is that box's
+				// callback, whatever size the box claims (an empty CMT3 that claims to extend over CMT4 is handed
+				// CMT4's bytes as its own payload, up to the end of the enclosing box)
+				if c != nil && p0 == c.PayloadStart+8 {
+					b, idx = c, j
+					break
 				}
 			}
 			if b == nil && nExif < 4 && !t.rearranged {
